@@ -9,7 +9,8 @@ Public entry points (each takes the Check object and an open `lean.Driver("drive
     check_c04_descriptor(chk, driver)  ufcx_expression descriptor fields (IR, generated C text, and read back
                                        through cffi for one batch) vs `exprDesc`; error branches; the property's
                                        own oracle "descriptor describes the layout of w and c"
-    check_tensor_sizes(chk, driver)    (not called by default) common.tensor_sizes(ir).w vs the extent of w
+    check_tensor_sizes(chk, driver)    common.tensor_sizes(ir) (A, w, c, coordinate_dofs of integrals and expressions) vs
+                                       Layout.lean and vs the UFCx contract extents computed from UFL/basix
 
 Lean obligations of the layout halves (module `FfcxProofs.Lemmas.Layout`):
     C05_THEOREMS, C04_THEOREMS
@@ -49,7 +50,12 @@ C04_THEOREMS = [
     "Ffcx.Layout.expr_num_constants",
     "Ffcx.Layout.expr_num_constants_witness",
 ]
-TENSOR_SIZES_THEOREMS = ["Ffcx.Layout.tensorW_covers_partial", "Ffcx.Layout.tensorW_interior_counterexample"]
+TENSOR_SIZES_THEOREMS = [
+    "Ffcx.Layout.width_agree",
+    "Ffcx.Layout.tensor_sizes_integral",
+    "Ffcx.Layout.tensor_sizes_expression",
+    "Ffcx.Layout.tensor_sizes_interior_witness",
+]
 
 TYPES = ("cell", "exterior_facet", "interior_facet", "vertex", "ridge")
 
@@ -289,32 +295,89 @@ def check_c05_layout(chk, driver):
     return n
 
 
+def _tensor_violation(chk, field, itype, name, decl, contract, extra):
+    """declared extent differs from the contract extent (smaller: the kernel reads beyond the declared array)"""
+    key = f"tensor_sizes:{field}:{itype}"
+    chk.violation(key, f"tensor_sizes(ir).{field} = {decl} but the UFCx contract extent of {field} is {contract} ({itype})",
+                  {"form": name, "declared": decl, "contract": contract, **extra})
+
+
 def check_tensor_sizes(chk, driver):
-    """common.tensor_sizes(IntegralIR).w (extent the numba backend declares for `w`) vs the end of the last
-    coefficient block.  Not part of C05's statement; exposed for C18 (DESIGN §7 F11)."""
+    """common.tensor_sizes (the extents the numba backend declares for A, w, c, coordinate_dofs) of every
+    IntegralIR / ExpressionIR of the corpus vs the model (`tensorSizesIntegral`, `tensorSizesExpr`) and vs the
+    UFCx contract extents computed from UFL/basix only. Returns the number of violations raised.
+    Search keys: `tensor_sizes:<A|w|c|coords>:<integral type|expression>` (e.g. tensor_sizes:w:interior_facet)."""
+    import warnings
+
     from ffcx.codegeneration.common import tensor_sizes
 
+    quick = chk.tier == "quick"
     bad = 0
-    for name, build in [("int_facet_tri", corpus._facet_int("triangle", 1)), ("laplace", corpus._laplace_coef("triangle", 2))]:
-        objs, an, ir = compute_entry(chk, name, build)
+    entries = corpus_forms(chk, 10 if quick else 100) + [(n, b, {}) for n, b in synthetic_forms(chk.seed + 2, 20 if quick else 200)]
+    for name, build, options in entries:
+        r = compute_entry(chk, name, build, options)
+        if r is None:
+            continue
+        objs, an, ir = r
+        diag = (options or {}).get("part") == "diagonal"
         k = 0
         for fd in an.form_data:
-            for _ in fd.integral_data:
+            args = sorted(fd.preprocessed_form.arguments(), key=lambda a: a.number())
+            adims = [_dim(a.ufl_function_space().ufl_element()) for a in args]
+            dims = [_dim(c.ufl_function_space().ufl_element()) for c in fd.reduced_coefficients]
+            shapes = [list(map(int, q.ufl_shape)) for q in fd.original_form.constants()]
+            for itg in fd.integral_data:
                 iir = ir.integrals[k]
                 k += 1
-                dims = [_dim(c.ufl_function_space().ufl_element()) for c in fd.reduced_coefficients]
-                width = int(driver.ask(f"(width {iir.expression.integral_type})"))
-                _, total = driver.ask(f"(coeffoff {width} {sx(dims)})")
-                tw = int(driver.ask(f"(tensorw {sx(dims)})"))
-                impl = int(tensor_sizes(iir).w)
-                if tw != impl:
-                    chk.disagree("tensor_sizes.w", {"form": name, "model": tw, "impl": impl})
-                if impl < int(total):
-                    bad += 1
-                    chk.violation("tensor_sizes:w:interior_facet",
-                                  "tensor_sizes(ir).w ignores the interior-facet width: smaller than the extent of w the kernel reads",
-                                  {"form": name, "dims": dims, "tensor_sizes_w": impl, "kernel_extent": int(total)})
-                chk.case("tensor-sizes", key=f"{name}|{iir.expression.integral_type}")
+                itype = itg.integral_type
+                width = 2 if itype == "interior_facet" else 1
+                nodes = int(itg.domain.ufl_coordinate_element().basix_element.dim)
+                perm = bool(iir.expression.needs_facet_permutations)
+                use = adims[:1] if (diag and len(adims) == 2) else adims
+                contract = {"A": _prod([width * a for a in use]), "w": width * sum(dims), "c": sum(_prod(x) for x in shapes),
+                            "coords": width * nodes * 3}
+                t = tensor_sizes(iir)
+                impl = {"A": int(t.A), "w": int(t.w), "c": int(t.c), "coords": int(t.coords), "local_index": int(t.local_index),
+                        "permutation": int(t.permutation)}
+                rep = driver.ask(f"(tensorsizes {itype} {sx(adims)} {sx(diag and len(adims) == 2)} {sx(dims)} {sx(shapes)} {nodes} {sx(perm)})")
+                model = dict(zip(("A", "w", "c", "coords", "local_index", "permutation"), ints(rep[1:])))
+                if model != impl or ints(rep[0]) != [int(x) for x in iir.expression.tensor_shape]:
+                    chk.disagree("tensor_sizes(IntegralIR)", {"form": name, "type": itype, "model": model, "impl": impl,
+                                                              "tensor_shape": [ints(rep[0]), list(map(int, iir.expression.tensor_shape))]})
+                if int(iir.expression.number_coordinate_dofs) != nodes:
+                    chk.disagree("number_coordinate_dofs", {"form": name, "impl": int(iir.expression.number_coordinate_dofs), "nodes": nodes})
+                for f_ in ("A", "w", "c", "coords"):
+                    if impl[f_] != contract[f_]:
+                        bad += 1
+                        _tensor_violation(chk, f_, itype, name, impl[f_], contract[f_], {"dims": dims, "arg_dims": adims, "const_shapes": shapes, "nodes": nodes})
+                chk.case("tensor-sizes", key=f"{itype}|{adims}|{dims}|{shapes}|{nodes}")
+    # expressions
+    for e in corpus.expressions():
+        with warnings.catch_warnings():
+            warnings.simplefilter("ignore")
+            expr, pts = e.build()[0]
+            pts = np.asarray(pts, dtype=float)
+            an, ir = pipeline.compute([(expr, pts)])
+        eir = ir.expressions[0]
+        processed = an.expressions[0][0]
+        adims = [_dim(a.ufl_function_space().ufl_element()) for a in ufl.algorithms.extract_arguments(processed)]
+        dims = [_dim(c.ufl_function_space().ufl_element()) for c in ufl.algorithms.extract_coefficients(processed)]
+        shapes = [list(map(int, q.ufl_shape)) for q in ufl.algorithms.analysis.extract_constants(expr)]
+        dom = _domain_of(processed)
+        nodes = 0 if dom is None else int(dom.ufl_coordinate_element().basix_element.dim)
+        perm = bool(eir.expression.needs_facet_permutations)
+        contract = {"A": pts.shape[0] * _prod(expr.ufl_shape) * _prod(adims), "w": sum(dims), "c": sum(_prod(x) for x in shapes), "coords": nodes * 3}
+        t = tensor_sizes(eir)
+        impl = {"A": int(t.A), "w": int(t.w), "c": int(t.c), "coords": int(t.coords), "local_index": int(t.local_index), "permutation": int(t.permutation)}
+        rep = driver.ask(f"(tensorsizesexpr {pts.shape[0]} {sx(list(expr.ufl_shape))} {sx(adims)} {sx(dims)} {sx(shapes)} {nodes} {sx(perm)})")
+        model = dict(zip(("A", "w", "c", "coords", "local_index", "permutation"), ints(rep)))
+        if model != impl:
+            chk.disagree("tensor_sizes(ExpressionIR)", {"expression": e.name, "model": model, "impl": impl})
+        for f_ in ("A", "w", "c", "coords"):
+            if impl[f_] != contract[f_]:
+                bad += 1
+                _tensor_violation(chk, f_, "expression", e.name, impl[f_], contract[f_], {"dims": dims, "arg_dims": adims, "const_shapes": shapes, "nodes": nodes})
+        chk.case("tensor-sizes-expr", key=e.name)
     return bad
 
 
